@@ -65,6 +65,12 @@ def _leaf_fn(I, leaf):
         m = s.model() if r == z3.sat else None
     wargs = [m.eval(x, model_completion=True).as_long() for x in a] if m is not None else None
     res['witness'] = wargs
+    if m is not None and getattr(prop, 'SKIP_VALIDATION_IN_KNOWN_REGIONS', False):
+        # (C09) a description inside a known order-dependence finding has no single native outcome to compare with
+        for f in findings:
+            reg = finding_region(f, a, prop.region_env(a, sl) if hasattr(prop, 'region_env') else None)
+            if z3.is_true(m.eval(reg, model_completion=True)):
+                res['witness'] = None; break
     if leaf.kind == 'ret':
         py = val_to_py(leaf.value)
         res['expected'] = concretize_py(py, m) if m is not None else None
